@@ -22,6 +22,22 @@ CACHE = os.path.join(VERIF, ".cache")
 SCRATCH = os.environ.get("VERIF_SCRATCH", "/var/tmp/verif-mos")
 
 
+def run_killable(cmd, cwd, env=None, timeout=900):
+    """subprocess.run that kills the whole process group on timeout (kani leaves cbmc children behind otherwise)"""
+    import signal
+    p = subprocess.Popen(cmd, cwd=cwd, env=env, stdout=subprocess.PIPE, stderr=subprocess.PIPE, text=True, start_new_session=True)
+    try:
+        out, err = p.communicate(timeout=timeout)
+        return p.returncode, out, err
+    except subprocess.TimeoutExpired:
+        try:
+            os.killpg(p.pid, signal.SIGKILL)
+        except Exception:
+            pass
+        out, err = p.communicate()
+        return 124, (out or "") + "\n[timeout]", err or ""
+
+
 def harness_text(unit):
     if unit.get("harness_gen"):
         p = subprocess.run(["python3", os.path.join(unit["dir"], unit["harness_gen"])], capture_output=True, text=True, check=True)
@@ -97,10 +113,59 @@ def collect_obs(text, hs):
         info["covers"] = covers
 
 
+def cache_key(units, snap, tier):
+    """sha256 over everything the in-place run depends on: the package sources of the snapshot, the
+    lock file, the harness texts, the unit descriptions, the tier and the tool versions"""
+    import hashlib
+    h = hashlib.sha256()
+    h.update(("tier=%s;filter=%s;jobs=%s" % (tier, os.environ.get("VERIF_DEV_HARNESS_FILTER", ""), os.environ.get("VERIF_KANI_JOBS", ""))).encode())
+    for u in units:
+        h.update(json.dumps({k: v for k, v in u.items() if k != "dir"}, sort_keys=True).encode())
+        h.update(harness_text(u).encode())
+    for top in ("Cargo.lock", "Cargo.toml"):
+        p = os.path.join(snap, top)
+        if os.path.exists(p):
+            h.update(open(p, "rb").read())
+    for root in ("mos-core", "mos", "mos-testing"):
+        for d, dirs, files in sorted(os.walk(os.path.join(snap, root))):
+            dirs.sort()
+            for f in sorted(files):
+                if f.endswith((".rs", ".toml")):
+                    fp = os.path.join(d, f)
+                    h.update(os.path.relpath(fp, snap).encode())
+                    h.update(open(fp, "rb").read())
+    try:
+        h.update(subprocess.run(["kani", "--version"], capture_output=True, text=True).stdout.encode())
+    except Exception:
+        pass
+    return h.hexdigest()
+
+
 def run_group(units, snap, tier):
     """units of one cargo package; returns list of result dicts"""
     t0 = time.time()
     pkg = units[0]["package"]
+    # identical inputs give identical verifier verdicts: reuse them (e.g. C06 after C01 in one session)
+    key = None
+    if not os.environ.get("VERIF_NO_CACHE"):
+        try:
+            key = cache_key(units, snap, tier)
+            cp = os.path.join(CACHE, "results", key + ".json")
+            if os.path.exists(cp):
+                res = json.load(open(cp))
+                for r in res:
+                    r["reused_result_of_identical_inputs"] = key[:16]
+                return res
+        except Exception:
+            key = None
+    res = run_group_uncached(units, snap, tier, pkg, t0)
+    if key and all(r["status"] == "ok" for r in res):
+        os.makedirs(os.path.join(CACHE, "results"), exist_ok=True)
+        json.dump(res, open(os.path.join(CACHE, "results", key + ".json"), "w"))
+    return res
+
+
+def run_group_uncached(units, snap, tier, pkg, t0):
     os.makedirs(os.path.join(SCRATCH, "kani"), exist_ok=True)
     os.makedirs(CACHE, exist_ok=True)
     lock = open(os.path.join(CACHE, "kani.lock"), "w")
@@ -182,13 +247,8 @@ def _run_group(units, snap, tier, pkg, t0):
         env = dict(os.environ, CARGO_NET_OFFLINE="true", CARGO_TARGET_DIR=os.path.join(CACHE, "kani-target"))
         timeout = max(int(u.get("timeout", 1500)) for u in live)
         tk = time.time()
-        try:
-            p = subprocess.run(cmd, cwd=src, env=env, capture_output=True, text=True, timeout=timeout)
-            out = p.stdout + "\n" + p.stderr
-            rc = p.returncode
-        except subprocess.TimeoutExpired as e:
-            out = ((e.stdout or b"").decode("utf-8", "replace") if isinstance(e.stdout, bytes) else (e.stdout or "")) + "\n[timeout]"
-            rc = 124
+        rc, o1, o2 = run_killable(cmd, src, env, timeout)
+        out = o1 + "\n" + o2
         kani_s = time.time() - tk
         os.makedirs(os.path.join(SCRATCH, "logs"), exist_ok=True)
         open(os.path.join(SCRATCH, "logs", "kani-%s.log" % pkg), "w").write(out)
@@ -281,14 +341,15 @@ def fill_unit(u, r, per, rc, out, tier):
             if ob not in names:
                 names.append(ob)
         safety = "%s.%s.safety" % (name, h)
+        htier = "thorough" if re.search(r"//\s*@tier\s+thorough", info["pre"]) else "quick"
         obs = {}
         q = ("/" + h) if u.get("qualify_by_harness") else ""
         for ob in names:
             props = u.get("ob_props", {}).get(ob, default_props)
             obs[ob] = {"name": ob + q, "unit": name, "backend": "kani", "props": props, "fn": u.get("fn_of", {}).get(h, h), "harness": h,
-                       "status": "discharged", "bounded": info["bounded"], "clause": "assertion(s) tagged ob:%s in harness %s" % (ob, h), "solver_s": 0.0}
+                       "status": "discharged", "bounded": info["bounded"], "clause": "assertion(s) tagged ob:%s in harness %s" % (ob, h), "solver_s": 0.0, "tier": htier}
         obs[safety] = {"name": safety, "unit": name, "backend": "kani", "props": u.get("safety_overrides", {}).get(h, safety_props), "fn": u.get("fn_of", {}).get(h, h), "harness": h,
-                       "status": "discharged", "bounded": info["bounded"],
+                       "status": "discharged", "bounded": info["bounded"], "tier": htier,
                        "clause": "all CBMC checks (overflow, bounds, unwrap/expect, division, shifts, assert!, unwinding) reachable from harness %s" % h, "solver_s": 0.0}
         if blk is None or blk["result"] is None:
             for o in obs.values():
@@ -356,11 +417,10 @@ def concrete_playback(pkg, h, src, env):
     """re-run one failed harness with concrete playback and return the byte vectors of its kani::any() calls"""
     cmd = ["cargo", "kani", "-p", pkg, "-Z", "function-contracts", "-Z", "stubbing", "-Z", "concrete-playback",
            "--concrete-playback=print", "--harness", h, "--output-format", "terse"]
-    try:
-        p = subprocess.run(cmd, cwd=src, env=env, capture_output=True, text=True, timeout=900)
-    except subprocess.TimeoutExpired:
+    rc, o1, o2 = run_killable(cmd, src, env, 900)
+    if rc == 124:
         return None
-    return parse_playback(p.stdout)
+    return parse_playback(o1)
 
 
 def parse_playback(out):
